@@ -215,9 +215,10 @@ class ParserState:
     @contextmanager
     def suppress_failures(self) -> Iterator[ParserState]:
         """A context manager that prevents rules contributing to failures."""
+        suppressed = self._suppress_failures
         self._suppress_failures = True
         yield self
-        self._suppress_failures = False
+        self._suppress_failures = suppressed
 
     @contextmanager
     def tag(self, tag_: str) -> Iterator[ParserState]:
